@@ -188,7 +188,11 @@ static void check_insert(void)
   resp->nrr = vp_range(0, C08_MAXRR);
 #endif
   for (k = 0; k < C08_MAXRR; k++) {
-    resp->rr[k].sect    = (ares_dns_section_t)vp_range(ARES_SECTION_ANSWER, ARES_SECTION_ADDITIONAL);
+#ifdef SECTS /* decimal digits, RR k in section digit k (concrete per job) */
+    resp->rr[k].sect = (ares_dns_section_t)(k == 0 ? (SECTS / 100) % 10 : k == 1 ? (SECTS / 10) % 10 : SECTS % 10);
+#else
+    resp->rr[k].sect = (ares_dns_section_t)vp_range(ARES_SECTION_ANSWER, ARES_SECTION_ADDITIONAL);
+#endif
     resp->rr[k].type    = (ares_dns_rec_type_t)vp_u16();
     resp->rr[k].ttl     = vp_u32();
     resp->rr[k].soa_min = vp_u32();
